@@ -14,6 +14,18 @@ func main() {
 		os.Exit(2)
 	}
 	prop := os.Args[1]
+	if prop == "gen-tables" {
+		// translators: regenerate coq/Gen/*.v from /repo's current working tree
+		fs := flag.NewFlagSet("gen-tables", flag.ExitOnError)
+		out := fs.String("out", ".", "output directory (coq/Gen)")
+		fs.Parse(os.Args[2:])
+		os.MkdirAll(*out, 0o755)
+		if err := genTables(*out); err != nil {
+			fmt.Fprintln(os.Stderr, "gen-tables:", err)
+			os.Exit(1)
+		}
+		return
+	}
 	fs := flag.NewFlagSet("harness", flag.ExitOnError)
 	seed := fs.Int64("seed", 1, "seed")
 	tier := fs.String("tier", "quick", "tier")
@@ -28,4 +40,11 @@ func main() {
 	r := NewRun(prop, *tier, *seed, *out)
 	f(r, *replay)
 	r.Finish()
+}
+
+func genTables(out string) error {
+	if err := genFieldsTable(out); err != nil {
+		return err
+	}
+	return nil
 }
